@@ -185,6 +185,10 @@ class _Soup:
             lines.append(f"  [maximum_bits: {mb}]")
         if rng.random() < 0.15:
             lines.append(f"  [is_signed: {rng.choice(['true', 'false'])}]")
+        if rng.random() < 0.2:
+            lines.append("  " + rng.choice(['[(cpp) enum_case: "kCamelCase"]', '[(cpp) enum_case: "SHOUTY_CASE, kCamelCase"]', '[$default (cpp) enum_case: "kCamelCase"]']
+                                           if not self.bad() else ['[(cpp) enum_case: "snake_case"]', "[(cpp) enum_case: 7]", '[(java) enum_case: "x"]', "[(java) enum_case: 7]",
+                                                                   '[enum_case: "kCamelCase"]', '[(cpp) enum_case: ""]', '[(cpp) enum_case: "kCamelCase,"]']))
         for i in range(rng.randint(1, 4)):
             v = W.shouty(rng, self.used)
             val = str(i + 1)
@@ -326,8 +330,10 @@ class _Soup:
             if self.bad() and ctx["fields"]:
                 fn = ctx["fields"][0][0]  # duplicate name
             start = str(off) if fixed or physical == 0 else rng.choice(["$next", "$next", str(off)])
+            if physical > 0 and rng.random() < 0.25:
+                start = "$next"  # always allowed after a physical field
             if self.bad():
-                start = rng.choice(["$next" if physical == 0 else "-1", "true", self.ref(ctx, "any") or "-1"])
+                start = rng.choice(["$next" if physical == 0 else "-1", "true", self.ref(ctx, "any") or "-1", "$next + $next"])
             if rng.random() < 0.15:
                 # anonymous bits
                 nb = rng.choice([1, 2, 4])
@@ -357,7 +363,7 @@ class _Soup:
             if fk == "agg" and t is not None and not t.fixed:
                 fixed = False
             if self.bad():
-                size_txt = rng.choice(["0", "-1", str(size + 1), "true", "18446744073709551616", self.int_expr(ctx, 2)])
+                size_txt = rng.choice(["0", "-1", str(size + 1), "true", "18446744073709551616", self.int_expr(ctx, 2), "$next", "$next + 1"])
             abbrev = ""
             if rng.random() < 0.1 and fn[:2] not in self.abbrevs and fn[:2] not in self.used and len(fn) > 3:
                 self.abbrevs.add(fn[:2])
@@ -458,6 +464,10 @@ def _soup_files(s, rng):
     if s.bad(2):
         head.append('import "lib_missing.emb" as gone')
     head.append(W._hdr(rng).rstrip("\n"))
+    if rng.random() < 0.2:
+        head.append(rng.choice(['[expected_back_ends: "cpp"]', '[expected_back_ends: "cpp, java"]'] if not s.bad()
+                               else ["[expected_back_ends: 5]", '[expected_back_ends: ""]', "[expected_back_ends: true]", '[(java) package: "x"]',
+                                     '[expected_back_ends: "java"]\n[(cpp) namespace: "a::b"]', '[$default byte_order: 3]', '[byte_order: "BigEndian"]']))
     body, _types = _soup_types(s, rng, vis, rng.randint(1, 4))
     files["m.emb"] = "\n".join(head + body) + "\n"
     return files
